@@ -144,6 +144,7 @@ def finish(ctx, level, explanation, trusted_base=None, checker_cmd=None):
             # private helpers unknown to the rules' baseline decomposition, inlined back before the rules ran (rules/inline.py)
             "renamed_back": getattr(f, "renamed", {}) if f else {},
             "inlined_unknown_helpers": {k: sorted(set(v)) for k, v in sorted(getattr(f, "inlined", {}).items())} if f else {},
+            "synthetic_closure_instances": len(getattr(f, "synth_closures", [])) if f else 0,
         },
         "known_findings_hit": [v["key"] for v, _ in known_hit],
         "exhaustive": False,
